@@ -3,6 +3,7 @@ package engine
 import (
 	"fmt"
 	"sort"
+	"time"
 
 	"golang.org/x/tools/go/ssa"
 
@@ -163,11 +164,21 @@ func (e *Engine) runRegion(fr *frame, blocks map[*ssa.BasicBlock]bool, header *s
 			e.runLoop(fr, li, arrivals, deliver)
 			continue
 		}
+		if e.paths {
+			for _, a := range arrivals {
+				st := e.enterBlock(b, []edgeState{a})
+				if st == nil {
+					continue
+				}
+				e.runBlock(fr, b, 0, st, deliver)
+			}
+			continue
+		}
 		st := e.enterBlock(b, arrivals)
 		if st == nil {
 			continue
 		}
-		e.runBlock(fr, b, st, deliver)
+		e.runBlock(fr, b, 0, st, deliver)
 	}
 	return out
 }
@@ -209,8 +220,9 @@ func (e *Engine) enterBlock(b *ssa.BasicBlock, arrivals []edgeState) *State {
 	return e.mergeStates(states)
 }
 
-func (e *Engine) runBlock(fr *frame, b *ssa.BasicBlock, st *State, deliver func(from, to *ssa.BasicBlock, st *State)) {
-	for _, ins := range b.Instrs {
+func (e *Engine) runBlock(fr *frame, b *ssa.BasicBlock, from int, st *State, deliver func(from, to *ssa.BasicBlock, st *State)) {
+	for i := from; i < len(b.Instrs); i++ {
+		ins := b.Instrs[i]
 		if _, ok := ins.(*ssa.Phi); ok {
 			continue
 		}
@@ -218,12 +230,23 @@ func (e *Engine) runBlock(fr *frame, b *ssa.BasicBlock, st *State, deliver func(
 		if e.steps > e.W.MaxSteps {
 			panic(unsupported("step budget exceeded"))
 		}
+		if e.steps%64 == 0 && time.Now().After(e.deadline) {
+			panic(unsupported("generation time budget exceeded"))
+		}
 		switch t := ins.(type) {
 		case *ssa.If:
 			cond := e.operand(st, t.Cond).L[0]
 			ts, fs := st.clone(), st
 			e.assume(ts, cond)
 			e.assume(fs, e.C.Not(cond))
+			if e.paths && !cond.IsTrue() && !cond.IsFalse() && e.C.Size(&smt.Query{Asserts: []*smt.Term{cond}}) >= 8 {
+				// at least one side is possible when the state before the branch was
+				if !e.feasible(ts) {
+					ts = nil
+				} else if !e.feasible(fs) {
+					fs = nil
+				}
+			}
 			deliver(b, b.Succs[0], ts)
 			deliver(b, b.Succs[1], fs)
 			return
@@ -242,6 +265,22 @@ func (e *Engine) runBlock(fr *frame, b *ssa.BasicBlock, st *State, deliver func(
 			return
 		default:
 			st = e.execInstr(fr, st, ins)
+			// path mode: a call may have produced several outcomes; each continues this block on its own
+			if extra := e.pending; len(extra) > 0 {
+				e.pending = nil
+				for _, x := range extra {
+					xs := x.st
+					if xs == nil || e.dead(xs) {
+						continue
+					}
+					if x.val != nil {
+						if v, ok := ins.(ssa.Value); ok {
+							xs.env[v] = *x.val
+						}
+					}
+					e.runBlock(fr, b, i+1, xs, deliver)
+				}
+			}
 			if st == nil || e.dead(st) {
 				return
 			}
@@ -249,12 +288,18 @@ func (e *Engine) runBlock(fr *frame, b *ssa.BasicBlock, st *State, deliver func(
 	}
 }
 
+type callOut struct {
+	val *Value
+	st  *State
+}
+
 // runLoop handles an inner loop according to its spec.
 func (e *Engine) runLoop(fr *frame, li *loopInfo, arrivals []edgeState, deliver func(from, to *ssa.BasicBlock, st *State)) {
 	key := fmt.Sprintf("%s#%d", fnKey(fr.fn), li.ordinal)
 	spec, ok := e.W.Loops[key]
 	if !ok {
-		panic(unsupported("loop without contract: " + key + " at " + e.posStr(li.header.Instrs[0].Pos())))
+		// default: a short loop is unrolled; needing more iterations fails the unwinding obligation (never a silent cut)
+		spec = &LoopSpec{Key: key, Unroll: e.W.DefaultUnroll}
 	}
 	if spec.Contract != nil {
 		e.runLoopInvariant(fr, li, spec, arrivals, deliver)
@@ -264,6 +309,19 @@ func (e *Engine) runLoop(fr *frame, li *loopInfo, arrivals []edgeState, deliver 
 	for k := 0; k < spec.Unroll; k++ {
 		if len(cur) == 0 {
 			break
+		}
+		if k > 0 {
+			// ask the solver whether another iteration is possible at all before exploring it
+			var live []edgeState
+			for _, es := range cur {
+				if e.feasible(es.st) {
+					live = append(live, es)
+				}
+			}
+			cur = live
+			if len(cur) == 0 {
+				break
+			}
 		}
 		out := e.runRegion(fr, li.blocks, li.header, li.header, cur)
 		for to, ess := range out.exits {
@@ -289,4 +347,76 @@ func fnKey(fn *ssa.Function) string {
 	return shortFn(fn)
 }
 
-var _ = smt.BoolSort
+// feasible asks the first solver (briefly) whether the state's path condition is satisfiable; unknown counts as feasible.
+func (e *Engine) feasible(st *State) bool {
+	if e.dead(st) {
+		return false
+	}
+	q := &smt.Query{}
+	q.Asserts = append(q.Asserts, e.axioms...)
+	q.Asserts = append(q.Asserts, st.pc...)
+	if e.C.Size(q) < 40 {
+		return true
+	}
+	key := ctxKey(st.pc)
+	if v, ok := e.feasMemo[key]; ok {
+		return v
+	}
+	t0 := time.Now()
+	res := e.feasible1(st, q)
+	e.feasSec += time.Since(t0).Seconds()
+	e.feasN++
+	e.feasMemo[key] = res
+	return res
+}
+
+func (e *Engine) feasible1(st *State, q *smt.Query) bool {
+	if e.paths {
+		if e.session == nil && !e.sessionTried {
+			e.sessionTried = true
+			e.session = e.C.NewSession(3000)
+		}
+		if e.session != nil {
+			// axioms are asserted per call as well (new ones appear as execution proceeds)
+			r := e.session.Check(q.Asserts)
+			return r != smt.Unsat
+		}
+	}
+	var cubes [][]*smt.Term
+	if !e.paths {
+		cubes = e.cubes(st.pc, 32)
+	}
+	e.feasCalls++
+	dir := e.W.TmpDir
+	if dir == "" {
+		return true
+	}
+	solvers := smt.DefaultSolvers(5)[:1]
+	if len(cubes) > 1 {
+		for i, cube := range cubes {
+			sq := &smt.Query{}
+			deadCube := false
+			for _, a := range q.Asserts {
+				s := e.C.AssumeTrue(a, cube)
+				if s.IsFalse() {
+					deadCube = true
+					break
+				}
+				if !s.IsTrue() {
+					sq.Asserts = append(sq.Asserts, s)
+				}
+			}
+			if deadCube {
+				continue
+			}
+			sq.Asserts = append(sq.Asserts, cube...)
+			r := smt.SolveText(e.C.Print(sq, false), "", 0, solvers, dir, fmt.Sprintf("%s.feas%d.%d", e.harness.Name, e.feasCalls, i), 5, 1)
+			if r.Status != smt.Unsat {
+				return true
+			}
+		}
+		return false
+	}
+	r := smt.SolveText(e.C.Print(q, false), "", 0, solvers, dir, fmt.Sprintf("%s.feas%d", e.harness.Name, e.feasCalls), 5, 1)
+	return r.Status != smt.Unsat
+}
